@@ -18,7 +18,7 @@ from . import shrink
 
 VERIF = os.path.dirname(os.path.dirname(os.path.abspath(__file__)))
 PROPS = ['C02', 'C03', 'C04', 'C05', 'C06', 'C07', 'C08', 'C12', 'C13', 'C14', 'C15', 'C18', 'C20']
-WALL_CAP = {'quick': 150.0, 'thorough': 1500.0}
+WALL_CAP = {'quick': 420.0, 'thorough': 1500.0}
 RUN_WATCHDOG = 120
 
 
@@ -258,6 +258,17 @@ def check(pid, tier, seed, jobs, out=print):
                            'shrink_execs': used, 'minimised': False,
                            'found_at': {'seed': seed, 'tier': tier, 'index': v['index']}}, f, indent=1, default=_default)
             ok, log = confirm_fresh(path, k)
+            if not ok:
+                # still not: the violation may need what EARLIER scenarios of the same work item left behind in the process
+                # (module-level or class-level state in the tree under test).  The replay then is the run of scenarios
+                # lo..index of this seed, in order, in one fresh process - still a pure function of the seed.
+                lo = (v['index'] // chunk) * chunk
+                with open(path, 'w') as f:
+                    json.dump({'property': pid, 'violation': vv0[0], 'key': k, 'digest': None, 'scenario': scn,
+                               'prelude': {'seed': seed, 'tier': tier, 'from': lo, 'to': v['index'] - 1},
+                               'shrink_execs': used, 'minimised': False,
+                               'found_at': {'seed': seed, 'tier': tier, 'index': v['index']}}, f, indent=1, default=_default)
+                ok, log = confirm_fresh(path, k)
         if ok:
             out('VIOLATION property=%s replay=%s' % (pid, path))
             out('  %s: %s' % (k, str(vv[0].get('detail', ''))[:600]))
@@ -277,6 +288,10 @@ def check(pid, tier, seed, jobs, out=print):
         harness_trouble.append('%d of %d re-executed runs gave a different digest' % (agg['nondet'], agg['rechecked']))
     if agg['n'] == 0:
         harness_trouble.append('no run completed')
+    elif capped and agg['n'] * 10 < total:
+        # a wall-clock cap must never read as a pass: if not even a tenth of the batch ran, something (the tree under test or the
+        # harness) has become pathologically slow
+        harness_trouble.append('wall cap reached after %d of %d runs' % (agg['n'], total))
 
     wall = time.time() - t0
     faults = {k[6:]: v for k, v in agg['stats'].items() if k.startswith('fault:')}
@@ -345,6 +360,19 @@ def replay(path, expect=None, out=print):
     with open(path) as f:
         rep = json.load(f)
     prop = load_prop(rep['property'])
+    # every check process has used the library once before the first scenario runs (the catalog of live decoders is probed with
+    # small windows): a replay starts from the same process history
+    from . import worlds
+    worlds.catalog()
+    if rep.get('prelude'):
+        pl = rep['prelude']
+        out('replaying the %d scenarios that preceded it in the same process first (indices %d..%d of seed %d)' % (
+            pl['to'] - pl['from'] + 1, pl['from'], pl['to'], pl['seed']))
+        for i in range(pl['from'], pl['to'] + 1):
+            try:
+                prop.execute(gen(prop, pl['seed'], pl['tier'], i))
+            except Exception:
+                pass
     res = prop.execute(rep['scenario'])
     keys = [vkey(v) for v in res['violations']]
     known = {k['signature'] for k in load_known() if k['property'] == rep['property'] and k['status'] == 'known'}
